@@ -30,34 +30,50 @@ mod proofs {
         &buf[..len]
     }
 
-    macro_rules! read_contract {
-        ($name:ident, $k:expr) => {
-            #[kani::proof]
-            #[kani::unwind(10)]
-            fn $name() {
-                let buf: [u8; N] = kani::any();
-                let src = any_slice(&buf);
-                let off: usize = kani::any();
-                let r: Option<&[u8; $k]> = src.read(off);
-                let fits = off.checked_add($k).map_or(false, |e| e <= src.len());
-                assert_eq!(r.is_some(), fits);
-                if let Some(chunk) = r {
-                    kani::cover!(true, "Some reachable");
-                    let mut i = 0;
-                    while i < $k {
-                        assert_eq!(chunk[i], src[off + i]);
-                        i += 1;
-                    }
-                } else {
-                    kani::cover!(true, "None reachable");
-                }
+    // one generic body, four separate proof functions: Kani's in-place concrete playback inserts its generated test next
+    // to the harness, which does not work for harnesses produced by a macro
+    fn read_contract<const K: usize>() {
+        let buf: [u8; N] = kani::any();
+        let src = any_slice(&buf);
+        let off: usize = kani::any();
+        let r: Option<&[u8; K]> = src.read(off);
+        let fits = off.checked_add(K).map_or(false, |e| e <= src.len());
+        assert_eq!(r.is_some(), fits);
+        if let Some(chunk) = r {
+            kani::cover!(true, "Some reachable");
+            let mut i = 0;
+            while i < K {
+                assert_eq!(chunk[i], src[off + i]);
+                i += 1;
             }
-        };
+        } else {
+            kani::cover!(true, "None reachable");
+        }
     }
-    read_contract!(read_a1, 1);
-    read_contract!(read_a2, 2);
-    read_contract!(read_a4, 4);
-    read_contract!(read_a8, 8);
+
+    #[kani::proof]
+    #[kani::unwind(10)]
+    fn read_a1() {
+        read_contract::<1>()
+    }
+
+    #[kani::proof]
+    #[kani::unwind(10)]
+    fn read_a2() {
+        read_contract::<2>()
+    }
+
+    #[kani::proof]
+    #[kani::unwind(10)]
+    fn read_a4() {
+        read_contract::<4>()
+    }
+
+    #[kani::proof]
+    #[kani::unwind(10)]
+    fn read_a8() {
+        read_contract::<8>()
+    }
 
     #[kani::proof]
     #[kani::unwind(10)]
